@@ -82,7 +82,7 @@ def verifier_db():
 
 
 def scn_name(scn):
-    keys = ["ver", "kx"] + sorted(k for k in scn if k not in ("ver", "kx") and scn[k])
+    keys = ["ver", "kx"] + sorted(k for k in scn if k not in ("ver", "kx") and scn[k])  # incl. nosid
     return ",".join("%s=%s" % (k, scn[k]) if k in ("ver", "kx", "res", "psk_mode") else k for k in keys)
 
 
@@ -161,6 +161,23 @@ def start(scn, L, session=None, cache=None):
         L.start_client(lambda c: c.handshakeClientCert(session=session, settings=cs, async_=True, **ckw))
         skw.update(certChain=chain, privateKey=key)
     L.start_server(lambda c: c.handshakeServerAsync(settings=ss, **skw))
+    if scn.get("nosid"):
+        # a TLS 1.3 client that does not use middlebox compatibility mode: empty legacy_session_id.
+        # The ClientHello OBJECT is changed before it is serialised and hashed, and the client keeps
+        # using that object (echo check, "send a CCS?"), so the endpoint stays self-consistent.
+        cconn = L.client.conn
+        orig_send = cconn._sendMsg
+
+        def strip_sid(msg):
+            if type(msg).__name__ == "ClientHello":
+                msg.session_id = bytearray(0)
+
+        def send_nosid(msg, *a, **kw):
+            strip_sid(msg)
+            for r in orig_send(msg, *a, **kw):
+                yield r
+        cconn._sendMsg = send_nosid
+        cconn._c06_pre = strip_sid          # the Editor sends through the class method: it calls this first
 
 
 # ---------------------------------------------------------------------------------------------
@@ -450,6 +467,9 @@ class Editor(object):
     # -- the hook
     def fn(self, via, msg):
         conn = self.conn
+        pre = getattr(conn, "_c06_pre", None)
+        if pre is not None:
+            pre(msg)
         ct = getattr(msg, "contentType", None)
         if via == "send" and type(msg).__name__ == "Message" and msg.data is conn._buffer:
             self._flush()                          # the peer's own flush of its queue
@@ -805,7 +825,7 @@ def params_of(scn, victim, resumed=None):
          "resume": res, "resumed": resumed,
          "compcert": fam == "tls13" and (victim == "server" or not scn.get("nocomp")),
          "hb": fam != "ssl3",
-         "compat": fam == "tls13",
+         "compat": fam == "tls13" and not scn.get("nosid"),
          # TLS 1.3: the client holds a key pair (offers post_handshake_auth)
          "keypair": fam == "tls13" and bool(scn.get("keypair") or scn.get("clientcert"))}
     return p
@@ -1068,6 +1088,10 @@ def all_scenarios():
     add(False, ver="tls13", kx="dhe")
     add(True, ver="tls13", kx="psk")
     add(False, ver="tls13", kx="ecdhe", keypair=True)
+    # client without middlebox compatibility mode (empty legacy_session_id: nobody sends a CCS)
+    add(True, ver="tls13", kx="ecdhe", nosid=True)
+    add(False, ver="tls13", kx="ecdhe", nosid=True, hrr=True)
+    add(False, ver="tls13", kx="ecdhe", nosid=True, reqcert=True, clientcert=True)
     add(False, ver="tls13", kx="psk", psk_mode="psk_ke")
     add(False, ver="tls13", kx="psk", hrr=True)
     return out
